@@ -284,42 +284,62 @@ def _mismatch(per_seed):
     return any(per_seed[s][k] != ref for s in HASH_SEEDS for k in (0, 1))
 
 
-def _shrink(case, max_rounds=14):
-    """Batched delta debugging on the template source: every round tries all single-chunk deletions in one
-    batch of worker processes and keeps the first candidate that still differs."""
-    src = case["source"]
-    n = 2
-    rounds = 0
-    while len(src) >= 2 and rounds < max_rounds:
-        rounds += 1
-        size = max(1, len(src) // n)
-        cands = []
-        for i in range(0, len(src), size):
-            c = src[:i] + src[i + size:]
-            if c and c not in cands:
-                cands.append(c)
-        # also cut at tag boundaries, which keeps templates parsable more often
-        for m in re.finditer(r"\{%.*?%\}|\{\{.*?\}\}", src, re.S):
-            c = src[: m.start()] + src[m.end():]
-            if c and c not in cands:
-                cands.append(c)
-        cands = cands[:400]
-        batch = [{"source": c, "env": case["env"]} for c in cands]
-        res = run_workers(batch, "hash", parallel=False)
-        hit = None
+_TOKEN_RE = re.compile(r"\{%.*?%\}|\{\{.*?\}\}|\{#.*?#\}", re.S)
+
+
+def _tokens(src):
+    out, pos = [], 0
+    for m in _TOKEN_RE.finditer(src):
+        if m.start() > pos:
+            out.append(src[pos:m.start()])
+        out.append(m.group())
+        pos = m.end()
+    if pos < len(src):
+        out.append(src[pos:])
+    return out
+
+
+def _shrink(case, max_rounds=10):
+    """Batched delta debugging of the template source: first over tag / text tokens, then over characters.  Every
+    round tries all chunk deletions of the current granularity in one batch (7 worker processes) and keeps the
+    shortest candidate that still compiles (under hash seed 0) and still differs between hash seeds."""
+    env = case["env"]
+
+    def still_fails(cands):
+        res = run_workers([{"source": c, "env": env} for c in cands], "hash", parallel=True)
+        best = None
         for j, c in enumerate(cands):
             per = {s: res[s][j] for s in HASH_SEEDS}
-            if _mismatch(per) and not per[HASH_SEEDS[0]][0].startswith("!"):
-                if hit is None or len(c) < len(hit):
-                    hit = c
-        if hit is not None:
-            src = hit
-            n = max(n - 1, 2)
-        elif size == 1:
-            break
-        else:
-            n = min(n * 2, len(src))
-    return {"source": src, "env": case["env"]}
+            if _mismatch(per) and not per[HASH_SEEDS[0]][0].startswith("!") and (best is None or len(c) < len(best)):
+                best = c
+        return best
+
+    def ddmin(items, rounds):
+        n = 2
+        while len(items) >= 2 and rounds > 0:
+            rounds -= 1
+            size = max(1, len(items) // n)
+            cands = []
+            for i in range(0, len(items), size):
+                c = "".join(items[:i] + items[i + size:])
+                if c and c not in cands:
+                    cands.append(c)
+            hit = still_fails(cands[:300])
+            if hit is not None:
+                items = _tokens(hit) if tokenwise[0] else list(hit)
+                n = max(n - 1, 2)
+            elif size == 1:
+                break
+            else:
+                n = min(n * 2, len(items))
+        return "".join(items)
+
+    tokenwise = [True]
+    src = ddmin(_tokens(case["source"]), max_rounds)
+    tokenwise[0] = False
+    if len(src) <= 300:
+        src = ddmin(list(src), 4)
+    return {"source": src, "env": env}
 
 
 def judge_batch(cases, rec):
@@ -355,8 +375,8 @@ def judge_batch(cases, rec):
             small = (v.get("details") or {}).pop("shrunk", None)
             if small:
                 v["case"] = small
-        if len(rec.violations) >= 3:
-            break
+        if rec.violations:
+            break  # one (shrunk) violation per shard is enough; shrinking costs worker processes
 
 
 class _Shrunk(core.Violation):
